@@ -92,6 +92,8 @@ class Builder:
             used = self.__dict__.setdefault("scoped_used", {}).setdefault((scope, prefix), set())
             for k in range(50):
                 nm = self.r.choice(self.SCOPED[prefix]) + ("" if k < 2 and self.r.random() < 0.6 else str(self.r.randint(0, 3 + k)))
+                if self.c.get("scoped_case") and self.r.random() < self.c["scoped_case"]:
+                    nm = nm.upper()    # the same few names in every cell, not always in the same letter case
                 if nm not in used:
                     used.add(nm)
                     return nm
